@@ -804,3 +804,26 @@ def has_union3_with_none(d):
         if len(ms) >= 3 and ("leaf", "none") in ms:
             return True
     return any(has_union3_with_none(c) for c in space.children(d))
+
+
+def canon_unordered(x):
+    """Hashable rendering with concrete classes in which every mapping's items are sorted (for formats whose
+    own dumper does not keep key order, e.g. PyYAML)."""
+    t = type(x).__name__
+    if isinstance(x, collections.ChainMap):
+        return (t, tuple(canon_unordered(m) for m in x.maps))
+    if isinstance(x, (dict, types.MappingProxyType)):
+        return (t, tuple(sorted(((canon_unordered(k), canon_unordered(v)) for k, v in x.items()), key=repr)))
+    if isinstance(x, (list, tuple, collections.deque)):
+        return (t, tuple(canon_unordered(i) for i in x))
+    if isinstance(x, (set, frozenset)):
+        return (t, tuple(sorted((canon_unordered(i) for i in x), key=repr)))
+    if dataclasses.is_dataclass(x) and not isinstance(x, type):
+        return (t, tuple((f.name, canon_unordered(getattr(x, f.name))) for f in dataclasses.fields(x)))
+    if isinstance(x, float):
+        return (t, repr(x))
+    if isinstance(x, re.Pattern):
+        return (t, x.pattern, x.flags)
+    if isinstance(x, (dt.datetime, dt.time)):
+        return (t, x.isoformat())
+    return (t, repr(x))
